@@ -56,7 +56,7 @@ func genArMembers(r *core.Rand, maxMembers int) []model.ArMember {
 	names := []string{"debian-binary", "control.tar.gz", "data.tar.xz", "control.tar.zst", "data.tar", "_gpgorigin", "x", "0123456789abcdef", "control.tar.lzma", "file with space", "a.b-c_d+e", "sub/bare.o", "a/b/c", "x/y"}
 	for i := 0; i < n; i++ {
 		m := model.ArMember{Name: r.Pick(names), Timestamp: int64(r.Intn(2000000000)), Owner: int64(r.Intn(100000)), Group: int64(r.Intn(100000)),
-			Mode: r.Pick([]string{"100644", "100755", "644", "0"})}
+			Mode: r.Pick([]string{"100644", "100755", "644", "0", "00100644", "37777777"})} // (the last two fill all 8 columns)
 		if r.Chance(1, 4) {
 			m.Name = r.Str("abcdefghijklmnopqrstuvwxyz0123456789._-+", r.Range(1, 16))
 		}
